@@ -508,7 +508,11 @@ class Doist(tyming.Tymist):
             doers is list of doers to add as extension.
 
         """
-        doers = [doer for doer in doers if doer not in self.doers] # ensure unique
+        uniques = []  # new doers without duplicates in order of first appearance
+        for doer in doers:
+            if doer not in self.doers and doer not in uniques:  # ensure unique
+                uniques.append(doer)
+        doers = uniques
         deeds = self.enter(doers=doers)  # provide fresh deeds for new doers
         self.doers.extend(doers)
         self.deeds.extend(deeds)
@@ -1392,7 +1396,11 @@ class DoDoer(Doer):
             doers is list of doers to add as extension.
 
         """
-        doers = [doer for doer in doers if doer not in self.doers] # ensure unique
+        uniques = []  # new doers without duplicates in order of first appearance
+        for doer in doers:
+            if doer not in self.doers and doer not in uniques:  # ensure unique
+                uniques.append(doer)
+        doers = uniques
         deeds = self.enter(doers=doers)  # provide fresh deeds for new doers
         self.doers.extend(doers)
         self.deeds.extend(deeds)
